@@ -10,16 +10,22 @@ import Glom.Model.C02Heap
                                | {"tuple": [E…]} | {"dict": [[E, E]…]}
                                | {"call": {"args": [E…], "kwargs": [[name, E]…]}}
           "impl":   {"ok": PV} | {"pae": {"idx": n, "exc": cls, "glom": b}} | {"other": cls},
+          "impl_alias": PATH | null,              -- where in the target the very result object sits
           "impl_after": PV,                       -- the target object after glom.glom(target, expr)
           "direct": {"ok": PV} | {"fail": {"k": n, "kind": name, "exc": cls}} | {"raised": cls},
+          "direct_alias": PATH | null,
           "direct_after": PV }                    -- the target object after the chain applied directly
+  PATH = {"l": [step…]}: the first access path (dict keys / indices / attribute names, depth-first
+  in container order) from the target to the object that IS (identity) the result, when the
+  result is a list / dict / attribute object; null when there is none.
 
   The target tree is allocated in a heap (every list / tuple / dict / object gets
   an address: no two paths of a decoded tree reach the same object, which is
   what the harness' `dec` builds); literals of the expression are spelled
   structurally (a literal list is what `arg_val` rebuilds member by member; a
   literal slice is one object allocated up front).  Observations are the
-  *trees* values denote in the heap left behind (`hView`).
+  *trees* values denote in the heap left behind, paired with the alias path of
+  the value (`viewOf`): `glom(t, T['f'](T['l'])) is t['l']` is observable.
 
   `impl` is what glom.glom(target, expr) did; `direct` is what the same chain of
   operations did when the harness applied it to a fresh copy of the target with
@@ -132,10 +138,56 @@ where
       let (ys, s2) ← many r s1
       return (y :: ys, s2)
 
-abbrev W := Option PV
+/-- what an observer sees of a value: the tree it denotes, and — for a list / dict /
+    attribute object — the first path by which the target reaches that very object -/
+abbrev W := Option PV × Option PV
 
-def obsOfJson (j : Json) : Except String (Obs W) := do
-  if let .ok v := j.getObjVal? "ok" then return .ok (some (← pvOfJson v))
+def isMutCell : HObj → Bool
+  | .list .. | .dict .. => true
+  | .inst c _ => c != "<bound>" && c != "slice"
+  | _ => false
+
+def firstSome {α β} (f : α → Option β) : List α → Option β
+  | [] => none
+  | x :: r => match f x with
+    | some y => some y
+    | none => firstSome f r
+
+/-- depth-first, container order, the first path from `v` to the cell `goal` -/
+def findPath (h : Heap) (goal : Nat) : Nat → Val → Option (List PV)
+  | 0, _ => none
+  | fuel + 1, .ref a =>
+    if a == goal then some []
+    else match h[a]? with
+      | some (.list _ xs) | some (.tuple _ xs) =>
+        firstSome (fun (ix : Nat × Val) => (findPath h goal fuel ix.2).map (PV.int ix.1 :: ·))
+          ((List.range xs.length).zip xs)
+      | some (.dict _ es) =>
+        firstSome (fun (e : Val × Val) =>
+          (findPath h goal fuel e.2).map (((toPV h 8 e.1).getD .none) :: ·)) es
+      | some (.inst c attrs) =>
+        if c == "<bound>" || c == "slice" then none
+        else firstSome (fun (e : String × Val) => (findPath h goal fuel e.2).map (PV.str e.1 :: ·)) attrs
+      | _ => none
+  | _, _ => none
+
+def aliasOf (s : HS) (target v : Val) : Option PV :=
+  match v with
+  | .ref a => match s.get a with
+    | some o => if isMutCell o then (findPath s.heap a viewFuel target).map PV.list else none
+    | none => none
+  | _ => none
+
+def viewOf (target : Val) : View Val HS W := fun s v => (toPV s.heap viewFuel v, aliasOf s target v)
+
+def aliasOfJson (j : Json) (key : String) : Except String (Option PV) :=
+  match j.getObjVal? key with
+  | .ok .null => .ok none
+  | .ok p => (pvOfJson p).map some
+  | .error _ => .ok none
+
+def obsOfJson (j : Json) (al : Option PV) : Except String (Obs W) := do
+  if let .ok v := j.getObjVal? "ok" then return .ok (some (← pvOfJson v), al)
   else if let .ok p := j.getObjVal? "pae" then
     return .pae (← p.getObjValAs? Nat "idx") (← p.getObjValAs? String "exc")
       (← p.getObjValAs? Bool "glom")
@@ -143,8 +195,9 @@ def obsOfJson (j : Json) : Except String (Obs W) := do
   else throw s!"bad obs {j.compress}"
 
 def wToJson : W → Json
-  | some v => pvToJson v
-  | none => Json.mkObj [("cyclic", true)]
+  | (some v, al) => Json.mkObj [("tree", pvToJson v),
+      ("alias", match al with | some p => pvToJson p | none => Json.null)]
+  | (none, _) => Json.mkObj [("cyclic", true)]
 
 def obsToJson : Obs W → Json
   | .ok v => Json.mkObj [("ok", wToJson v)]
@@ -156,8 +209,8 @@ def kindName (k : Kind) : String :=
   | some (n, _) => n
   | none => "other"
 
-def refOfJson (j : Json) : Except String (Except RefErr W) := do
-  if let .ok v := j.getObjVal? "ok" then return .ok (some (← pvOfJson v))
+def refOfJson (j : Json) (al : Option PV) : Except String (Except RefErr W) := do
+  if let .ok v := j.getObjVal? "ok" then return .ok (some (← pvOfJson v), al)
   else if let .ok p := j.getObjVal? "fail" then
     return .error (.opFail (← p.getObjValAs? Nat "k") (Kind.ofString (← p.getObjValAs? String "kind"))
       ⟨← p.getObjValAs? String "exc"⟩)
@@ -199,21 +252,30 @@ partial def mentionsMutator : E PV → Bool
   | .dict es => es.any (fun kv => mentionsMutator kv.1 || mentionsMutator kv.2)
   | .cargs args kwargs => args.any mentionsMutator || kwargs.any (fun kv => mentionsMutator kv.2)
 
+def isCyclic : Except RefErr W → Bool
+  | .ok (none, _) => true
+  | _ => false
+
 def run (j : Json) : Except String Json := do
   let targetPV ← pvOfJson (← j.getObjVal? "target")
   let ePV ← exprOfJson (← j.getObjVal? "expr")
-  let implObs ← obsOfJson (← j.getObjVal? "impl")
-  let implAfter : W := some (← pvOfJson (← j.getObjVal? "impl_after"))
-  let direct ← refOfJson (← j.getObjVal? "direct")
-  let directAfter : W := some (← pvOfJson (← j.getObjVal? "direct_after"))
+  let implObs ← obsOfJson (← j.getObjVal? "impl") (← aliasOfJson j "impl_alias")
+  let implAfterPV ← pvOfJson (← j.getObjVal? "impl_after")
+  let direct ← refOfJson (← j.getObjVal? "direct") (← aliasOfJson j "direct_alias")
+  let directAfterPV ← pvOfJson (← j.getObjVal? "direct_after")
   let F := genFacts
   let some (target, s00) := allocPV targetPV { heap := [] }
     | return Json.mkObj [("skip", true), ("why", "target outside the heap instance")]
   let some (e, s0) := exprToHeap ePV s00
     | return Json.mkObj [("skip", true), ("why", "literal outside the heap instance")]
+  let view := viewOf target
+  -- the alias path of the target object itself ([] for a container, none for a scalar)
+  let rootAlias := aliasOf s0 target target
+  let implAfter : W := (some implAfterPV, rootAlias)
+  let directAfter : W := (some directAfterPV, rootAlias)
   let rr := refEval hPrim e target s0
-  let leanRef : Except RefErr W := viewRes hView rr
-  let leanAfter : W := hView rr.2 target
+  let leanRef : Except RefErr W := viewRes view rr
+  let leanAfter : W := view rr.2 target
   if refEq leanRef (.error .unsupported) then
     return Json.mkObj [("skip", true), ("why", "expression outside the C02 fragment")]
   if let some why := rr.2.bad then
@@ -221,7 +283,7 @@ def run (j : Json) : Except String Json := do
   let mr : Except Err Val × HS := match record F hPrim.none e with
     | some o => tEval F hPrim o target s0
     | none => (.error (.raised ⟨"<no overload>"⟩), s0)
-  let modelPair := observeS F hView target mr
+  let modelPair := observeS F view target mr
   let modelObs := modelPair.1
   let modelAfter := modelPair.2
   let stateful := if mentionsMutator ePV then "mut:" else ""
@@ -232,13 +294,13 @@ def run (j : Json) : Except String Json := do
     return Json.mkObj [("agree", true), ("holds", holds), ("model", obsToJson modelObs),
       ("lean_ref", refToJson leanRef), ("branch", "prim-outside-kernel"),
       ("why", if holds then "" else "implementation differs from the chain applied directly in Python")]
-  if leanAfter.isNone || modelAfter.isNone || refEq leanRef (.ok none) || modelObs == .ok none then
+  if leanAfter.1.isNone || modelAfter.1.isNone || isCyclic leanRef then
     return Json.mkObj [("skip", true), ("why", "the result or the target is not a tree any more (cyclic)")]
   let primOk := refEq leanRef direct && leanAfter == directAfter
   let ref := if primOk then leanRef else direct
   let refAfter := if primOk then leanAfter else directAfter
   let holds := checkObs ref implObs && refAfter == implAfter
-  let modelHolds := checkC02 hView hPrim e target s0 modelPair
+  let modelHolds := checkC02 view hPrim e target s0 modelPair
   let agree := primOk && modelHolds && modelObs == implObs && modelAfter == implAfter
   let why :=
     (if checkObs ref implObs then "" else "property fails on the implementation's observation; ") ++
@@ -247,14 +309,17 @@ def run (j : Json) : Except String Json := do
     (if modelHolds then "" else "model fails its own checker; ") ++
     (if modelObs == implObs then "" else "model differs from implementation; ") ++
     (if modelAfter == implAfter then "" else "model leaves the target in another state than the implementation; ")
+  let aliased := match leanRef with
+    | .ok (_, some _) => "alias:"
+    | _ => ""
   let branch := match leanRef with
-    | .ok _ => s!"{stateful}ok:{lastDunder ePV}"
+    | .ok _ => s!"{stateful}{aliased}ok:{lastDunder ePV}"
     | .error (.opFail _ kind x) => s!"{stateful}fail:{kindName kind}:{x.cls}"
     | .error (.raised x) => s!"{stateful}argfail:{x.cls}"
     | .error .unsupported => "unsupported"
   return Json.mkObj [("agree", agree), ("holds", holds), ("model_holds", modelHolds),
     ("prim_ok", primOk), ("wf", WF F), ("model", obsToJson modelObs),
-    ("model_after", wToJson modelAfter), ("changed", !(leanAfter == some targetPV)),
+    ("model_after", wToJson modelAfter), ("changed", !(leanAfter.1 == some targetPV)),
     ("lean_ref", refToJson leanRef), ("lean_after", wToJson leanAfter),
     ("branch", branch), ("why", why)]
 
